@@ -113,6 +113,34 @@ fn junk_idt(r: &mut Rng) -> Box<InterruptDescriptorTable> {
     idt
 }
 
+/// a table on which the same expansion has already run over all vectors and whose entries were then customised the way a
+/// kernel does between two runs of its IDT set-up routine: masked (present bit cleared, stub address kept), other IST
+/// index / DPL / gate type, or replaced by another handler
+fn reinstall_base(r: &mut Rng, f: &dyn Fn(&mut InterruptDescriptorTable)) -> Box<InterruptDescriptorTable> {
+    let mut idt = Box::new(InterruptDescriptorTable::new());
+    f(&mut idt);
+    let p = &mut *idt as *mut InterruptDescriptorTable as *mut u8;
+    for v in 0..256usize {
+        if reserved(v) {
+            continue;
+        }
+        let e = unsafe { core::slice::from_raw_parts_mut(p.add(16 * v), 16) };
+        match r.below(6) {
+            0 => e[5] &= 0x7f,                                  // masked, address kept
+            1 => e[4] = (e[4] & !7) | (1 + r.below(7) as u8),   // IST index
+            2 => e[5] |= 3 << 5,                                // DPL 3
+            3 => e[5] |= 1,                                     // trap gate
+            4 => {
+                e[5] &= 0x7f;
+                e[4] = (e[4] & !7) | (1 + r.below(7) as u8);
+                e[5] |= 1 | (((r.below(4)) as u8) << 5);
+            }
+            _ => {}
+        }
+    }
+    idt
+}
+
 fn check_install(rep: &mut Report, what: &str, before: &[u8; 4096], after: &[u8; 4096], in_range: &dyn Fn(usize) -> bool, stubs: &[u64; 256], cs: u16) -> bool {
     for v in 0..256usize {
         let unchanged = before[16 * v..16 * v + 16] == after[16 * v..16 * v + 16];
@@ -151,6 +179,12 @@ fn ranges(rep: &mut Report, r: &mut Rng, a: &Args, stubs_all: &[u64; 256], cs: u
     let stubs_from = &learn(&|i| install_from(i, 0));
     let base = junk_idt(r);
     let before = bytes_of(&base);
+    let re = reinstall_base(r, &|i| install_range(i, 0, 255));
+    let re_before = bytes_of(&re);
+    let re_excl = reinstall_base(r, &|i| install_range_excl(i, 0, 255));
+    let re_excl_before = bytes_of(&re_excl);
+    let re_from = reinstall_base(r, &|i| install_from(i, 0));
+    let re_from_before = bytes_of(&re_from);
     let mut n = 0u64;
     for lo in 0..=255u8 {
         if (lo as u64) % a.nshards != a.shard {
@@ -177,12 +211,33 @@ fn ranges(rep: &mut Report, r: &mut Rng, a: &Args, stubs_all: &[u64; 256], cs: u
                 if !check_install(rep, "set_general_handler(lo..hi)", &before, &after, &|v| v >= l && v < h, stubs_excl, cs) {
                     return;
                 }
+                let mut idt = re_excl.clone();
+                install_range_excl(&mut idt, lo, hi);
+                let after = bytes_of(&idt);
+                if !check_install(rep, "set_general_handler(lo..hi)|second-run-over-customised-entries", &re_excl_before, &after, &|v| v >= l && v < h, stubs_excl, cs) {
+                    return;
+                }
+            }
+            if (lo as u32 + hi as u32) % 3 == 0 {
+                rep.eval();
+                let mut idt = re.clone();
+                install_range(&mut idt, lo, hi);
+                let after = bytes_of(&idt);
+                if !check_install(rep, "set_general_handler(lo..=hi)|second-run-over-customised-entries", &re_before, &after, &|v| v >= l && v <= h, stubs, cs) {
+                    return;
+                }
             }
         }
         let mut idt = base.clone();
         install_from(&mut idt, lo);
         let after = bytes_of(&idt);
         if !check_install(rep, "set_general_handler(lo..)", &before, &after, &|v| v >= lo as usize, stubs_from, cs) {
+            return;
+        }
+        let mut idt = re_from.clone();
+        install_from(&mut idt, lo);
+        let after = bytes_of(&idt);
+        if !check_install(rep, "set_general_handler(lo..)|second-run-over-customised-entries", &re_from_before, &after, &|v| v >= lo as usize, stubs_from, cs) {
             return;
         }
     }
@@ -214,7 +269,7 @@ fn ranges(rep: &mut Report, r: &mut Rng, a: &Args, stubs_all: &[u64; 256], cs: u
     }
     enter(rep, r, &s14, 14, scratch, resume, cs, ss);
     enter(rep, r, &s200, 200, scratch, resume, cs, ss);
-    for c in ["empty-range", "single", "crosses-reserved", "exceptions-only", "interrupts-only", "full"] {
+    for c in ["second-run|masked", "second-run|ist", "second-run|dpl", "second-run|trap-gate", "empty-range", "single", "crosses-reserved", "exceptions-only", "interrupts-only", "full"] {
         rep.class(&format!("install|{}", c));
     }
 }
